@@ -231,6 +231,8 @@ def run(chk):
     # (i) round trips
     if o['sd_roundtrip'].get('ok') != want:
       chk.violation('oracle', 'from_state_dict(t, to_state_dict(t)) != t', {'desc': c['desc'], 'observed': o['sd_roundtrip']})
+    elif o.get('sd_treedef_same', {}).get('ok') is False:
+      chk.violation('oracle', 'from_state_dict(t, to_state_dict(t)) is another pytree than t: jax sees other node types (e.g. a FrozenDict node where t has a plain dict inside a FrozenDict)', {'desc': c['desc']})
     restored = set()
     for th, r in o['by_threshold'].items():
       if 'err' in r:
@@ -239,6 +241,8 @@ def run(chk):
       if r['ok']['restored'] != want:
         chk.violation('oracle', 'from_bytes(t, to_bytes(t)) differs from t in structure, container types, dtype, shape or bytes (chunk threshold %s)' % th,
                       {'desc': c['desc'], 'threshold': th, 'restored': r['ok']['restored'], 'expected': want})
+      elif r['ok'].get('treedef_same') is False:
+        chk.violation('oracle', 'from_bytes(t, to_bytes(t)) is another pytree than t: jax sees other node types at some level (chunk threshold %s)' % th, {'desc': c['desc'], 'threshold': th})
       restored.add(common.canon_hash(r['ok']['raw_restored']))
     # (ii) threshold independence
     if len(restored) > 1:
